@@ -736,7 +736,7 @@ def run(ctx):
                  'get_receiver, real point-source vectors, real '
                  'get_magnetic_field per model x s; non-trivial = some '
                  'functional has more than one weight',
-            time_cap=ctx.budget or (80 if q else 700), chunksize=1)
+            time_cap=ctx.budget or (320 if q else 1400), chunksize=1)
     if ctx.wants('nan'):
         ctx.explore(
             'nan', FN_N, nan_cases(ctx.tier), engine='E1',
@@ -745,7 +745,7 @@ def run(ctx):
                  '(outside, boundary, outermost cell, 1 ulp either side of '
                  'the shared node planes, interior); non-trivial = both NaN '
                  'and finite answers occur',
-            time_cap=ctx.budget or (60 if q else 300), chunksize=1)
+            time_cap=ctx.budget or (240 if q else 600), chunksize=1)
     for mode in ('exact', 'real'):
         name = 'reciprocity-' + mode
         if not ctx.wants(name):
@@ -756,7 +756,7 @@ def run(ctx):
                  'case all ordered pairs of 30 antennas (6 interior points x '
                  '5 orientations); non-trivial = pairs whose response exceeds '
                  '1e-6 of the largest response',
-            time_cap=ctx.budget or (80 if q else 400), chunksize=1)
+            time_cap=ctx.budget or (320 if q else 800), chunksize=1)
         done = [r for r in res if r and 'worst_rel' in r]
         if done:
             ctx.notes[f'{name}_worst_relative_asymmetry'] = max(
